@@ -121,22 +121,95 @@ def gen_cases(ctx):
             o["non_unit"] = True
         if rng.random() < 0.3:
             o["test"] = [rng.choice(["t1", "t[02468] ", "!t1", "t3 ", "t"])]
-        elif rng.random() < 0.25:
+        elif rng.random() < 0.4:
             # several patterns of one kind whose meaning depends on being compiled separately
-            o["test"] = rng.choice([["t(1) ", "t(.)\\1 "], ["(?i)T1 ", "T2 "], ["t(0) ", "t(2) ", "t(\\d)\\1 "],
-                                    ["!t(1) ", "!t(.)\\1 "], ["t(?P<a>1)(?P=a) ", "t(3) "]])
+            o["test"] = rng.choice([["(?i)T1 ", "T2 "], ["(?i)T0 ", "T3 ", "T4 "], ["!(?i)T1 ", "!T2 "], ["t(?P<a>1) ", "t(?P<a>2) "],
+                                    ["t(1) ", "t(.)(?!\\1)\\d "], ["t(0) ", "t(2) ", "t(\\d)\\1 "], ["(?i)T[0-3] ", "T[4-9] "]])
         if rng.random() < 0.25:
-            # a relative search path, and a test that leaves the process in another directory
+            # a relative search path, a test (in the first layer run) that leaves the process in another directory,
+            # and a layer that cannot be torn down so that the rest is resumed in subprocesses
             o["relpath"] = True
-            cand = [t for t in w["tests"]]
-            if cand:
-                rng.choice(cand)["body"]["chdir"] = True
+            o["processes"] = 1
+            non_unit = sorted([k for k, l in enumerate(w["layers"]) if l["kind"] != "unit"],
+                              key=lambda k: worlds.layer_name(w, k))
+            if non_unit:
+                w["layers"][non_unit[0]]["tearDown"] = True
+                w["layers"][non_unit[0]]["tearDownFaults"] = [[999999, 2]]
+            for t in w["tests"]:
+                if rng.random() < 0.5:
+                    t["body"]["chdir"] = True
         cases.append(cw.Case(w, o))
     return cases
 
 
+def shuffle_modes(ctx, n=None):
+    """one world, one --shuffle-seed, every mode: the listing (with and without -j), the sequential run and the
+    -j N run must agree on the per-layer order of the tests, on the outcomes per layer and on the verdict"""
+    import concurrent.futures
+    import os
+    import shutil
+    rng = ctx.rng
+    n = n if n is not None else (6 if ctx.quick() else 100)
+    jobs = []
+    for i in range(n):
+        w = worlds.gen_world(rng, n_layers=rng.choice([2, 3, 4]), tests_per_layer=(2, 5),
+                             kinds=["pass", "pass", "pass", "fail", "error", "skipBody"], p_fault=0.0, p_write=0.0)
+        seed = rng.randint(0, 10 ** 6)
+        jobs.append((i, w, seed, rng.choice([2, 3, 4]), rng.randint(0, 10 ** 6)))
+
+    def one(job):
+        i, w, seed, j, argseed = job
+        d = os.path.join(ctx.tmp, "sm%05d" % i)
+        worlds.materialize(w, d)
+        base = {"verbose": 1, "shuffle_seed": seed, "argseed": argseed}
+        res = {
+            "list1": worlds.run_real(w, dict(base, list=True), d),
+            "listj": worlds.run_real(w, dict(base, list=True, processes=j), d),
+            "seq": worlds.run_real(w, dict(base), d),
+            "par": worlds.run_real(w, dict(base, processes=j), d),
+        }
+        shutil.rmtree(d, ignore_errors=True)
+        return res
+    with concurrent.futures.ThreadPoolExecutor(max_workers=6) as ex:
+        results = list(ex.map(one, jobs))
+    for (i, w, seed, j, argseed), res in zip(jobs, results):
+        case = {"world": w, "seed": seed, "processes": j, "argseed": argseed}
+        ctx.count(("shuffle-modes", str(w)[:500], seed, j), nontrivial=True, sample=None)
+        ctx.bump("shuffle-modes")
+        tests = {t["id"]: t for t in w["tests"]}
+
+        def per_layer(obs):
+            out = {}
+            for pid, pr in obs.procs.items():
+                for e in pr["events"]:
+                    if e.get("ev") == "tstart":
+                        out.setdefault(tests[e["t"]]["layer"], []).append(e["t"])
+            return out
+        # (under -j the parent lists its injected empty first layer: a group without tests)
+        l1 = {k: v for k, v in cw.listing_groups(w, res["list1"].stdout) if v}
+        lj = {k: v for k, v in cw.listing_groups(w, res["listj"].stdout) if v}
+        seq, par = per_layer(res["seq"]), per_layer(res["par"])
+        bad = None
+        if l1 != lj:
+            bad = "--list-tests with -j %d lists %r, without -j %r" % (j, lj, l1)
+        elif seq != {k: v for k, v in l1.items() if v}:
+            bad = "the sequential run executes %r, --list-tests lists %r" % (seq, l1)
+        elif par != seq:
+            bad = "the -j %d run executes %r per layer, the sequential run %r" % (j, par, seq)
+        elif res["seq"].exit != res["par"].exit:
+            bad = "exit status %r sequentially, %r with -j %d" % (res["seq"].exit, res["par"].exit, j)
+        else:
+            s1 = sorted(worlds.parse_output(res["seq"].stdout)["summaries"])
+            s2 = sorted(x for x in worlds.parse_output(res["par"].stdout)["summaries"] if x != (0, 0, 0, 0))
+            if s1 != s2:
+                bad = "per-layer summaries %r sequentially, %r with -j %d" % (s1, s2, j)
+        if bad:
+            ctx.violation("seed %d: %s" % (seed, bad), case, signature="modes-disagree")
+
+
 def run(ctx):
     cw.standard_check(ctx, gen_cases(ctx), PROP, KINDS, "runner.tests", monitor, list_first=True)
+    shuffle_modes(ctx)
 
 
 def replay(ctx, obj):
